@@ -58,6 +58,9 @@ CLAIMED = {
  "C15": ("SSA branch-polarity analysis of the only hit emission in the DP kernel (both extents >= minLen, error estimate <= maxDiff, Error assigned the tested value) and wiring of minLen/maxDiff in AlignTraps; per-run re-initialisation of the filter's tube state",
          "Decides one clause: every emitted hit passed the stated length and identity tests, its Error is the tested value, and the thresholds are the user's minimum hit length and 1 - minimum identity. Score optimality, coordinate bounds and recall of planted repeats are value-level and not decided. Also decides that the filter's tube states are re-made on every call.",
          "the kernel's Hit position fields mean what their names say", "DESIGN.md §2.P, §4/C15"),
+ "C16": ("SSA dataflow/typestate rules on Piler.merge (matched intervals collected, images carried over, both ends extended, deleted in an unconditional loop, merged interval inserted into the same tree) and Piler.Add (duplicate look-ups in swapped orientation before any mutation, pair recorded on success)",
+         "Decides structural necessary conditions of 'every added feature appears in exactly one pile' and 'a pair added twice in either orientation is rejected': conservation of member features across merges and the both-orientation duplicate verdict before any change. That piles are exactly the connected components, disjointness, order independence and the overlap-slack arithmetic are properties of the interval tree's contents and are not decided.",
+         "interval.IntTree.DoMatching/Delete/Insert behave as documented", "DESIGN.md Part II §14"),
  "C17": ("constant-table consistency check over go/types constant values of the built-in alphabet definitions (AST + types); both-directions involution check in NewPairing; case-folding dataflow in newAlphabet",
          "Decides, for the seven built-in alphabets, every clause the property states about their *definitions* (distinct ASCII letters, involutive case-preserving pairing closed over the alphabet, 3-minus-index complement rule, gap at index 0) from the constants in the source. It does not decide that the constructors build the tables the definitions describe. Also decides two constructor mechanisms: NewPairing tests the involution for both strings, and the case-insensitive table fill uses case-folded strings.",
          "go/types constant evaluation; constructors interpret their arguments positionally", "DESIGN.md §2.J, §4/C17"),
@@ -67,7 +70,6 @@ CLAIMED = {
 }
 
 NOT_APPLICABLE = {
- "C16": "connected-component structure and order independence are properties of interval-tree contents at run time; the one structural candidate has a behaviour-preserving alternative the rule would flag (DESIGN.md §4/C16)",
 }
 
 def main():
